@@ -261,7 +261,7 @@ var c12Configs = []filterCfg{
 }
 
 func TestC12Classes(t *testing.T) {
-	rec := NewRecorder("C12", "C12Classes", "class product, enumerated completely per program: ethertype {0x0800, 0x86dd, 0x0806, other} x protocol {1, 6, 17, 58, 44->58, 44->6, other} x IHL 0..15 x fragment field {0, MF, offset 1, 0x1fff, DF} x {tuple equal, exactly one of the 12 address/port bytes different} x frame lengths just below/at/above every load offset (+ full) for the tuple programs (5 address/port configurations at sign/endianness boundaries); all 256 TCP flag bytes for the SYN-ACK program; oracle: verdict of the real program in the x/net/bpf VM == reference predicate written from the property text (udp program: one-sided); non-trivial = frame within one field of the accept/reject boundary (accepted, or rejected by exactly the varied field)")
+	rec := NewRecorder("C12", "C12Classes", "class product, enumerated completely per program: ethertype {0x0800, 0x86dd, 0x0806, other} x protocol {1, 6, 17, 58, 44->58, 44->6, other} x IHL 0..15 x fragment field {0, MF, offset 1, 0x1fff, DF; and every single bit of the word on a matching frame} x {tuple equal, exactly one of the 12 address/port bytes different} x frame lengths just below/at/above every load offset (+ full) for the tuple programs (5 address/port configurations at sign/endianness boundaries); all 256 TCP flag bytes for the SYN-ACK program; oracle: verdict of the real program in the x/net/bpf VM == reference predicate written from the property text (udp program: one-sided); non-trivial = frame within one field of the accept/reject boundary (accepted, or rejected by exactly the varied field)")
 	rec.Exhaustive = true
 	defer rec.Flush()
 	if replayIfRequested(t, rec, checkC12Frame) {
@@ -302,6 +302,20 @@ func TestC12Classes(t *testing.T) {
 				}
 			}
 			return true
+		}
+		// every single bit of the flags / fragment-offset word on an otherwise matching frame (a mask that misses one
+		// bit of the 13-bit offset only shows for that bit)
+		for bit := 0; bit < 16; bit++ {
+			for _, pr := range []string{"tcp", "icmp", "udp"} {
+				for _, ihl := range []int{5, 6, 15} {
+					for _, extra := range []uint16{0, 0x2000, 0x4000} {
+						f := buildFrame(0x0800, pr, ihl, uint16(1)<<uint(bit)|extra, cfg, -1, 0x12, -1)
+						if !try(f, true) {
+							return
+						}
+					}
+				}
+			}
 		}
 		for _, et := range ets {
 			for _, pr := range protos {
@@ -382,7 +396,7 @@ func TestC12Random(t *testing.T) {
 			f = rapid.SliceOfN(rapid.Byte(), 0, 120).Draw(rt, "frame")
 		} else {
 			f = buildFrame(oneOf(rt, "et", uint16(0x0800), 0x0800, 0x0800, 0x86dd), oneOf(rt, "proto", "tcp", "tcp", "icmp", "icmp6", "frag-icmp6", "udp"), oneOf(rt, "ihl", 5, 5, 5, 6, 15, 0, 4),
-				oneOf(rt, "frag", uint16(0), 0, 0x4000, 0x2000, 1, 0x1fff), cfg, oneOf(rt, "diff", -1, -1, -1, 0, 3, 4, 7, 8, 9, 10, 11), byte(rapid.IntRange(0, 255).Draw(rt, "flags")), -1)
+				oneOf(rt, "frag", uint16(0), 0, 0x4000, 0x2000, 1, 0x1fff, uint16(1)<<uint(rapid.IntRange(0, 15).Draw(rt, "frag_bit")), uint16(rapid.IntRange(0, 65535).Draw(rt, "frag_r"))), cfg, oneOf(rt, "diff", -1, -1, -1, 0, 3, 4, 7, 8, 9, 10, 11), byte(rapid.IntRange(0, 255).Draw(rt, "flags")), -1)
 			nEdits := rapid.IntRange(0, 3).Draw(rt, "n_edits")
 			for i := 0; i < nEdits; i++ {
 				off := rapid.IntRange(0, len(f)-1).Draw(rt, fmt.Sprintf("e%d_off", i))
